@@ -44,6 +44,8 @@ THEOREMS = [
     "NfcVerif.C09.terminated_stable",
     "NfcVerif.C09.wait_points_closed",
     "NfcVerif.C09.terminate_reached",
+    "NfcVerif.C09.late_bind_never_leaks",
+    "NfcVerif.C09.late_bind_order_counterexample",
     "NfcVerif.C09.connect_returns_partial",
     "NfcVerif.C09.connect_returns_counterexample",
     "NfcVerif.C09.service_threads_exit",
@@ -163,11 +165,11 @@ def later_calls(llc, olds):
 
 
 class Scenario:
-    def __init__(self, ck, role, cause, at, start_at, single=None, servers=True, ui_attack=False):
-        self.ck, self.role, self.cause, self.at, self.start_at = ck, role, cause, at, start_at
+    def __init__(self, ck, role, cause, at, start_at, single=None, servers=True, ui_attack=False, point="established"):
+        self.ck, self.role, self.cause, self.at, self.start_at, self.point = ck, role, cause, at, start_at, point
         self.single, self.servers, self.ui_attack = single, servers, ui_attack
         self.descr = {"role": role, "cause": cause, "cause_at_exchange": at, "threads_started_at_exchange": start_at,
-                      "only_kind": single, "servers": servers, "ui_to_connection_sap": ui_attack}
+                      "only_kind": single, "servers": servers, "ui_to_connection_sap": ui_attack, "point_of_run_loop": point}
 
     def run(self, hang_budget):
         """returns (number of blocked threads at the moment of the cause, hangs seen)"""
@@ -184,8 +186,13 @@ class Scenario:
         if self.servers:
             # the peer connects to the SNEP server (SAP 4) and to the handover server (by name)
             replies = [P.encode(P.Connect(4, 33, 128, 1)), P.encode(P.Connect(1, 34, 128, 1, b"urn:nfc:sn:handover"))]
-        script = T.MacScript(self.cause, 10 ** 9, replies)      # cause armed later, relative to the threads
+        if self.point != "established":
+            replies = []                                            # the cause strikes before any conversation
+        script = T.MacScript(self.cause, 10 ** 9, replies, point=self.point, role=self.role)   # armed later
+        script.armed = False
         T.install_mac(script)
+        if self.point == "dps":
+            T.install_dps()
         st = {"llc": None, "runners": [], "olds": [], "servers": [], "blocked_at_cause": None}
 
         def on_startup(llc):
@@ -217,8 +224,11 @@ class Scenario:
                 # F39: a UI PDU addressed to the SAP of an established data link connection
                 script.replies.append(P.encode(P.UnnumberedInformation(32, 40, b"boo")))
             script.at = script.n + self.at + (1 if self.ui_attack else 0)
+            script.armed = True
 
         def on_connect(llc):
+            if self.point == "dps":
+                llc.cfg["llcp-dpc"] = 1        # as negotiated by activate() when both sides support it
             if self.start_at < 0:
                 start_threads()
             else:
@@ -274,7 +284,7 @@ class Scenario:
         ck.count("connect() -> " + link.show())
         # ---- terminate() completed?
         if llc is None or any(x is not None for x in llc.sap):
-            ck.fail("terminate-incomplete-" + self.cause,
+            ck.fail("terminate-incomplete-" + self.cause + ("" if self.point == "established" else "-before-established"),
                     "after the run loop ended by %s service access points are still open: %s"
                     % (self.cause, [i for i, x in enumerate(llc.sap) if x is not None] if llc else None), replay)
         # ---- every blocked thread comes back
@@ -327,6 +337,15 @@ def oracle(ck):
                 starts = [-1, 2] if ck.thorough else [rng.choice([-1, 2])]
                 for start_at in starts:
                     scen.append(Scenario(ck, role, cause, at, start_at))
+    # the cause strikes before the link is ESTABLISHED: first collect / first exchange / DPS key agreement
+    for role in ("initiator", "target"):
+        for point in ("first", "dps"):
+            for cause in causes:
+                if cause == "local-terminate" or (point == "first" and role == "initiator" and cause not in T.EXCEPTION_CAUSES):
+                    continue
+                if not ck.thorough and cause not in ("runtime-error", "timeout", "ioerror", "remote-disc", "keyboard-interrupt"):
+                    continue
+                scen.append(Scenario(ck, role, cause, 0, -1, point=point))
     # the peer sends a UI PDU to the SAP of an established connection, then the link ends
     for role in ("initiator", "target"):
         scen.append(Scenario(ck, role, "remote-disc", 2, -1, servers=False, ui_attack=True))
@@ -651,14 +670,21 @@ def tie_loops(ck, model):
         for role in ("initiator", "target"):
             tbl = tables["run_as_" + role]
             for cause in LOOP_CAUSES:
-                for at in (0, 2):
-                    script = T.MacScript(cause, at)
+                for point, at in (("established", 1), ("established", 2), ("first", 0), ("dps", 0)):
+                    if point == "first" and role == "initiator" and cause not in T.EXCEPTION_CAUSES:
+                        continue        # the initiator's first collect() can only fail by an exception
+                    if point != "established" and cause == "local-terminate":
+                        continue        # the callback is first asked when the loop starts
+                    script = T.MacScript(cause, at, point=point, role=role)
                     T.install_mac(script)
                     llc = nfc.llcp.llc.LogicalLinkController(sec=False)
-                    llc.cfg.update({"send-miu": 248, "recv-lto": 500, "send-wks": 0, "llcp-dpc": 0})
+                    llc.cfg.update({"send-miu": 248, "recv-lto": 500, "send-wks": 0, "llcp-dpc": 1 if point == "dps" else 0})
+                    if point == "dps":
+                        T.install_dps()
                     llc.mac = (nfc.dep.Initiator if role == "initiator" else nfc.dep.Target)()
-                    llc.link.ESTABLISHED = True
-                    nfc.llcp.llc.time = T._FastTime
+                    llc.link.CONNECTED = True       # as left by activate(); the loops set ESTABLISHED themselves
+                    spectator = llc.socket(nfc.llcp.LOGICAL_DATA_LINK)     # an application socket that must get closed
+                    llc.bind(spectator, 40)
                     called = []
                     orig = llc.terminate
                     llc.terminate = lambda reason, orig=orig: (called.append(reason), orig(reason))[1]
@@ -673,18 +699,21 @@ def tie_loops(ck, model):
                         leave = "IOError"
                     except Exception:  # noqa
                         leave = "reraises"
-                    shut = all(x is None for x in llc.sap)
+                    shut = all(x is None for x in llc.sap) and bool(spectator.state.SHUTDOWN)
                     real = "terminate=%d leave=%s shutdown=%d" % (bool(called), leave, shut)
-                    rep = model.ask("loop role=%s cause=%s" % (role, cause))
+                    rep = model.ask("loop role=%s cause=%s point=%s" % (role, cause, point))
                     rep3 = " ".join(t for t in rep.split() if not t.startswith("connect="))
                     n += 1
-                    ck.case(("loop", role, cause, at), True, "L2 loop:" + cause)
+                    ck.case(("loop", role, cause, point, at), True, "L2 loop:%s@%s" % (cause, point))
                     if rep3 != real:
                         dis += 1
-                        ck.fail("tie:run-loop-table", "model %r, implementation %r" % (rep3, real), {"role": role, "cause": cause, "at": at})
+                        ck.fail("tie:run-loop-table", "model %r, implementation %r" % (rep3, real),
+                                {"role": role, "cause": cause, "point": point, "at": at})
                     if not shut:
-                        ck.fail("terminate-incomplete-" + cause, "run_as_%s left by %s after cause %s with service access points still open"
-                                % (role, leave, cause), {"role": role, "cause": cause, "at": at, "single_thread": True})
+                        ck.fail("terminate-incomplete-%s%s" % (cause, "" if point == "established" else "-before-established"),
+                                "run_as_%s left by %s after cause %s at point '%s' (link state %s) with service access points still open: "
+                                "a socket bound to 40 is still %s" % (role, leave, cause, point, llc.link, spectator.state),
+                                {"role": role, "cause": cause, "point": point, "at": at, "single_thread": True})
                     # (T) the handler that the cause reaches, as written in the source
                     if cause in cls_of:
                         h = tbl.get(cls_of[cause])
@@ -749,6 +778,117 @@ def tie_service(ck, model):
     ck.tie("service loops on a terminated link: model vs snep/handover server code", cases=n, disagreements=dis, exhaustive=True)
 
 
+
+# =========================================================================== terminate() as an interleavable actor
+def tie_latebind(ck, model):
+    """the link thread runs terminate(); at one of ITS scheduling points (lock acquisitions, step from one service access
+    point to the next) an application thread creates a socket and binds it.  The socket must be refused (ESHUTDOWN) or
+    be shut down by the rest of terminate(); compared with the model's `lateBind termSteps k a`."""
+    import nfc.llcp
+    from sims import term_llc as T
+    rng = ck.rng
+    world = T.TermWorld()
+    T.install_double(world)
+    DLC, LDL, RAW = nfc.llcp.DATA_LINK_CONNECTION, nfc.llcp.LOGICAL_DATA_LINK, nfc.llcp.llc.RAW_ACCESS_POINT
+
+    def setup():
+        llc = T.make_llc()
+        llc.sap = T.SapList(llc.sap)
+        llc.sap.world = world
+        d = nfc.llcp.Socket(llc, DLC); d.bind(33); T.establish(d._tco)
+        nfc.llcp.Socket(llc, LDL).bind(40)
+        nfc.llcp.Socket(llc, RAW).bind(20)
+        srv = nfc.llcp.Socket(llc, DLC); srv.bind(b"urn:nfc:sn:svc"); srv.listen(1)
+        return llc
+
+    n = dis = 0
+    try:
+        llc = setup()
+        world.begin_term(None, None)
+        llc.terminate("dry run")
+        world.end()
+        points = list(world.points)
+        idx = [p for p in points if p[0] == "i"]
+        if ck.thorough:
+            targets = points
+        else:
+            keep = {"i%d#0" % i for i in (63, 62, 46, 41, 40, 34, 33, 32, 31, 21, 20, 17, 16, 2, 1, 0)} | set(rng.sample(idx, min(6, len(idx))))
+            targets = [p for p in points if p[0] == "L" or p in keep]
+        binds = [("raw", 2, 2), ("raw", 21, 21), ("raw", 35, 35), ("raw", 63, 63), ("ldl", 50, 50), ("ldl", None, 32), ("dlc", 62, 62),
+                 ("dlc", b"urn:nfc:sn:late", 17), ("dlc", 34, 34)]
+        for target in targets:
+            # steps of terminate() already made when the point is reached, in the model's order (flag, 63, 62, ...)
+            before = points[:points.index(target)]
+            passed = [int(p[1:].split("#")[0]) for p in before + [target] if p[0] == "i"]
+            if target[0] == "i":
+                k = 1 + (63 - passed[-1])
+            else:
+                k = 0 if not passed else 1 + (63 - passed[-1])
+            for kind, spec, addr in (binds if ck.thorough else rng.sample(binds, 5) + [("raw", 63, 63)]):
+                if passed and addr == passed[-1]:
+                    continue            # this access point is being shut down right now
+                llc = setup()
+                res = {}
+
+                def action():
+                    res["flag"] = bool(getattr(llc, "terminated", False))
+                    sock = nfc.llcp.Socket(llc, {"raw": RAW, "ldl": LDL, "dlc": DLC}[kind])
+                    res["sock"] = sock
+                    T.name_conditions(sock._tco)
+                    try:
+                        sock.bind(spec)
+                        res["addr"] = sock.getsockname()
+                        if kind == "dlc":
+                            sock.listen(1)
+                    except nfc.llcp.Error as e:
+                        res["err"] = e.errno
+                world.begin_term(target, action)
+                try:
+                    llc.terminate("interleaved")
+                except T.Hang as h:
+                    ck.fail("terminate-blocks", "terminate() waits on %s" % h.cv, {"point": target, "bind": [kind, repr(spec)]})
+                    continue
+                finally:
+                    world.end()
+                if "sock" not in res:
+                    continue
+                tco = res["sock"]._tco
+                if res.get("err") == errno.ESHUTDOWN:
+                    real = "refused"
+                elif "err" in res:
+                    real = "error %s" % res["err"]
+                elif tco.state.SHUTDOWN and list.__getitem__(llc.sap, res["addr"]) is None:
+                    real = "shutdown"
+                else:
+                    real = "leaked"
+                rep = model.ask("latebind k=%d a=%d" % (k, addr))
+                n += 1
+                ck.case(("latebind", target, kind, repr(spec)), True, "L2 bind during terminate")
+                replay = {"terminate_point": target, "steps_done": k, "socket": kind, "bind": repr(spec), "flag_set_at_point": res["flag"],
+                          "outcome": real}
+                if rep != real:
+                    dis += 1
+                    ck.fail("tie:terminate-steps", "model %r, implementation %r" % (rep, real), replay)
+                if real == "leaked":
+                    call = {"raw": res["sock"].recv, "ldl": res["sock"].recvfrom, "dlc": res["sock"].accept}[kind]
+                    world.begin_term(None, None)
+                    try:
+                        call()
+                        after = "returned"
+                    except T.Hang as h:
+                        after = "waits forever on " + str(h.cv).split(":")[-1]
+                    except BaseException as e:  # noqa
+                        after = "raised " + exc_name(e)
+                    finally:
+                        world.end()
+                    ck.fail("late-bind-leaked", "a %s socket bound to %s by an application thread while terminate() was at %s (terminated flag %s) "
+                            "is never shut down (state %s, service access point %s still open); its %s() %s"
+                            % (kind, res["addr"], target, res["flag"], tco.state, res["addr"], call.__name__, after), dict(replay, call=call.__name__, after=after))
+    finally:
+        T.uninstall()
+    ck.tie("bind() interleaved with the steps of terminate(): model vs real controller", cases=n, disagreements=dis, exhaustive=ck.thorough)
+
+
 def run(ck):
     ck.rule = ("L2 cases: (abstract socket/controller state, call, script of actions at the scheduling points); the action tree of every "
                "(state, call) is enumerated to depth %d; systematic over kind x state x bound/unbound x link-terminated-before x call "
@@ -779,5 +919,6 @@ def run(ck):
     with contextlib.redirect_stdout(io.StringIO()):      # the KeyboardInterrupt handlers of the run loops print a newline
         tie_loops(ck, model)
         tie_service(ck, model)
+        tie_latebind(ck, model)
         n = oracle(ck)
     ck.notes.append("L3: %d real-thread scenarios, hard time limit %.0f s per thread" % (n, HANG_TIMEOUT))
